@@ -3,6 +3,7 @@ package rl
 import (
 	"context"
 	"fmt"
+	"sort"
 	"strings"
 	"time"
 
@@ -249,5 +250,6 @@ func leadersBrief(rp *Replica) string {
 	for s, l := range rp.RL.GetLeaders() {
 		parts = append(parts, fmt.Sprintf("%d:%s", s, strings.TrimPrefix(l.Leader, "http://")))
 	}
+	sort.Strings(parts)
 	return strings.Join(parts, " ")
 }
